@@ -22,9 +22,9 @@ RULE = ('cases are key-management histories of 8-40 steps over 2-3 keys; a run i
 TIERS = {'quick': {'runs': 2500, 'budget_s': 100}, 'thorough': {'runs': 100000, 'budget_s': 1500}}
 PROBES = ('two_selfsigs_same_second', 'two_selfsigs_subsecond', 'selfsig_after_hop_same_second', 'clock_backwards', 'twin_held', 'twin_collected',
           'twin_compared_held', 'twin_compared_fresh', 'uid_removed', 'uid_readded', 'subkey_revoked', 'key_revoked', 'uid_revoked',
-          'signing_subkey_crosssig', 'protected_ops', 'hop')
+          'signing_subkey_crosssig', 'protected_ops', 'hop', 'subkey_adopted_by_new_primary')
 WEIGHTS = {'tick': 2.5, 'recertify': 3.0, 'add_uid': 1.5, 'del_uid': 1.2, 'derive_pub': 1.5, 'drop_pub': 0.8, 'export_import': 1.0,
-           'certify_other': 0.8, 'direct_other': 0.4, 'copy_key': 0.5, 'protect': 0.5, 'rebind_subkey': 1.5, 'add_subkey': 1.5}
+           'certify_other': 0.8, 'direct_other': 0.4, 'copy_key': 0.5, 'protect': 0.5, 'rebind_subkey': 1.5, 'add_subkey': 1.5, 'adopt_subkey': 0.9}
 
 
 def generate(rng, tier):
